@@ -233,6 +233,7 @@ PROPS["C19"] = dict(
     steps=[
         dict(test="^TestC19_Outage$", quick=dict(checks=3, timeout=900, shrink="1s"), thorough=dict(checks=12, shards=8, timeout=3000, shrink="1s")),
         dict(test="^TestC19_Static$", quick=dict(checks=300, timeout=900), thorough=dict(checks=3000, shards=4, timeout=3000)),
+        dict(test="^TestC19_StalledRotation$", quick=dict(checks=3, timeout=900, shrink="1s"), thorough=dict(checks=40, shards=2, timeout=3000, shrink="1s")),
         dict(test="^TestC19_BoundaryRace$", quick=dict(checks=6, timeout=900, shrink="1s"), thorough=dict(checks=40, shards=1, timeout=3000, shrink="1s")),
     ],
 )
